@@ -322,11 +322,15 @@ impl Mul for Value {
             (Value::Duration(ld), Value::Int(ri)) => i32::try_from(ri)
                 .ok()
                 .and_then(|factor| ld.checked_mul(factor))
+                // chrono only checks the i64 range of the seconds: a product beyond its own MAX panics later
+                .filter(|d| *d >= Duration::MIN && *d <= Duration::MAX)
                 .map(Value::Duration)
                 .ok_or_else(|| out_of_range(ld, "*", ri)),
             (Value::Int(li), Value::Duration(rd)) => i32::try_from(li)
                 .ok()
                 .and_then(|factor| rd.checked_mul(factor))
+                // chrono only checks the i64 range of the seconds: a product beyond its own MAX panics later
+                .filter(|d| *d >= Duration::MIN && *d <= Duration::MAX)
                 .map(Value::Duration)
                 .ok_or_else(|| out_of_range(li, "*", rd)),
             (Value::Float(lf), Value::Float(rf)) => Ok(Value::from_float((lf * rf).0)),
@@ -397,31 +401,25 @@ impl Display for ValueDisplay<'_> {
             Value::Bool(ref s) => write!(f, "{}", s),
             Value::DateTime(ref dt) => write!(f, "{}", dt),
             Value::Duration(ref d) => {
-                let mut remaining: Duration = *d;
-                let weeks = remaining.num_seconds() / Duration::weeks(1).num_seconds();
-                remaining = remaining - Duration::weeks(weeks);
-                let days = remaining.num_seconds() / Duration::days(1).num_seconds();
-                remaining = remaining - Duration::days(days);
-                let hours = remaining.num_seconds() / Duration::hours(1).num_seconds();
-                remaining = remaining - Duration::hours(hours);
-                let mins = remaining.num_seconds() / Duration::minutes(1).num_seconds();
-                remaining = remaining - Duration::minutes(mins);
-                let secs = remaining.num_seconds() / Duration::seconds(1).num_seconds();
-                remaining = remaining - Duration::seconds(secs);
-                let msecs = remaining.num_milliseconds();
-                remaining = remaining - Duration::milliseconds(msecs);
-                let usecs = remaining.num_microseconds().unwrap_or(0);
-
+                // whole seconds and the nanoseconds below them, split with integer arithmetic:
+                // the Duration constructors panic on amounts they cannot represent
+                let total_secs = d.num_seconds();
+                let sub_nanos = i64::from(d.subsec_nanos());
                 let pairs = &[
-                    (weeks, "w"),
-                    (days, "d"),
-                    (hours, "h"),
-                    (mins, "m"),
-                    (secs, "s"),
-                    (msecs, "ms"),
-                    (usecs, "us"),
+                    (total_secs / 604_800, "w"),
+                    (total_secs % 604_800 / 86_400, "d"),
+                    (total_secs % 86_400 / 3_600, "h"),
+                    (total_secs % 3_600 / 60, "m"),
+                    (total_secs % 60, "s"),
+                    (sub_nanos / 1_000_000, "ms"),
+                    (sub_nanos % 1_000_000 / 1_000, "us"),
+                    (sub_nanos % 1_000, "ns"),
                 ];
 
+                if pairs.iter().all(|(val, _sym)| *val == 0) {
+                    // a field always has a text: the empty duration is zero seconds
+                    return write!(f, "0s");
+                }
                 for (val, sym) in pairs.iter().filter(|(val, _sym)| *val != 0) {
                     write!(f, "{}{}", val, sym)?;
                 }
